@@ -152,13 +152,18 @@ class SetEncoder(encoder.SequenceEncoder):
         if asn1Spec is None:
             asn1Spec = component
 
+        return SetEncoder._smallestOuterTag(asn1Spec)
+
+    @staticmethod
+    def _smallestOuterTag(asn1Spec):
+        # Components are ordered by the tag their encoding starts with,
+        # which is the outermost one (the last of `superTags`); an untagged
+        # CHOICE counts for the smallest tag any of its alternatives has
         if asn1Spec.typeId == univ.Choice.typeId and not asn1Spec.tagSet:
-            if asn1Spec.tagSet:
-                return asn1Spec.tagSet
-            else:
-                return asn1Spec.componentType.minTagSet
+            return min([SetEncoder._smallestOuterTag(namedType.asn1Object)
+                        for namedType in asn1Spec.componentType.namedTypes])
         else:
-            return asn1Spec.tagSet
+            return asn1Spec.tagSet[-1:]
 
     def encodeValue(self, value, asn1Spec, encodeFun, **options):
 
